@@ -34,8 +34,11 @@ pub(crate) struct HashMap<K, V> {
 }
 
 impl<K, V> HashMap<K, V> {
-    pub(crate) const fn new() -> Self {
-        HashMap { items: Vec::new() }
+    pub(crate) fn new() -> Self {
+        // pre-sized: growing a Vec (realloc with a symbolic size) is what CBMC handles worst
+        HashMap {
+            items: Vec::with_capacity(8),
+        }
     }
 
     pub(crate) fn clear(&mut self) {
